@@ -8,7 +8,7 @@ namespace Nmfu
 set_option linter.unusedSectionVars false
 set_option linter.unusedSimpArgs false
 
-variable {A Q L : Type} [DecidableEq A] [DecidableEq Q]
+variable {S T A Q L : Type} [DecidableEq A] [DecidableEq Q] [DecidableEq S] [DecidableEq T]
 
 /-- The answers recorded in `es` are the ones `ω` gives when `es` is performed from `h`. -/
 def Consistent (ω : Oracle A Q) : List (Ev A Q) → List (Ev A Q) → Prop
@@ -59,7 +59,7 @@ theorem run_consistent (ω : Oracle A Q) (t : Tree A Q L) (h : List (Ev A Q)) :
   | leaf l => simp [Consistent]
 
 theorem sync_run (ω : Oracle A Q) :
-    ∀ (lag : List (Ev A Q)) (t t' : Tree A Q Leaf) (h : List (Ev A Q)),
+    ∀ (lag : List (Ev A Q)) (t t' : Tree A Q L) (h : List (Ev A Q)),
       sync lag t = some t' → Consistent ω h lag →
       t.run ω h = (lag ++ (t'.run ω (h ++ lag)).1, (t'.run ω (h ++ lag)).2) := by
   intro lag
@@ -103,15 +103,15 @@ theorem sync_run (ω : Oracle A Q) :
       | leaf l => simp [sync] at hs
 
 /-- What `joint` promises about the two actual runs from a common history. -/
-def JointPost (ω : Oracle A Q) (h : List (Ev A Q)) (tA tB : Tree A Q Leaf) (p : PS A Q) : Prop :=
+def JointPost (ω : Oracle A Q) (h : List (Ev A Q)) (tA : Tree A Q (Leaf S)) (tB : Tree A Q (Leaf T)) (p : PS S T A Q) : Prop :=
   p.a = (tA.run ω h).2.cfg ∧ p.b = (tB.run ω h).2.cfg ∧
   (if p.aLeads then
       (tA.run ω h).1 = (tB.run ω h).1 ++ p.lag ∧ Consistent ω (h ++ (tB.run ω h).1) p.lag
     else
       (tB.run ω h).1 = (tA.run ω h).1 ++ p.lag ∧ Consistent ω (h ++ (tA.run ω h).1) p.lag)
 
-theorem joint_leaf_left (ω : Oracle A Q) (l : Leaf) (t : Tree A Q Leaf) (h : List (Ev A Q)) :
-    ∃ p ∈ (t.paths.map fun p => (⟨l.cfg, p.2.cfg, p.1, false⟩ : PS A Q)),
+theorem joint_leaf_left (ω : Oracle A Q) (l : Leaf S) (t : Tree A Q (Leaf T)) (h : List (Ev A Q)) :
+    ∃ p ∈ (t.paths.map fun p => (⟨l.cfg, p.2.cfg, p.1, false⟩ : PS S T A Q)),
       JointPost ω h (.leaf l) t p := by
   refine ⟨⟨l.cfg, (t.run ω h).2.cfg, (t.run ω h).1, false⟩, ?_, ?_⟩
   · exact List.mem_map.2 ⟨_, run_mem_paths ω t h, rfl⟩
@@ -119,8 +119,8 @@ theorem joint_leaf_left (ω : Oracle A Q) (l : Leaf) (t : Tree A Q Leaf) (h : Li
       if_false, true_and]
     exact run_consistent ω t h
 
-theorem joint_leaf_right (ω : Oracle A Q) (l : Leaf) (t : Tree A Q Leaf) (h : List (Ev A Q)) :
-    ∃ p ∈ (t.paths.map fun p => (⟨p.2.cfg, l.cfg, p.1, true⟩ : PS A Q)),
+theorem joint_leaf_right (ω : Oracle A Q) (l : Leaf T) (t : Tree A Q (Leaf S)) (h : List (Ev A Q)) :
+    ∃ p ∈ (t.paths.map fun p => (⟨p.2.cfg, l.cfg, p.1, true⟩ : PS S T A Q)),
       JointPost ω h t (.leaf l) p := by
   refine ⟨⟨(t.run ω h).2.cfg, l.cfg, (t.run ω h).1, true⟩, ?_, ?_⟩
   · exact List.mem_map.2 ⟨_, run_mem_paths ω t h, rfl⟩
@@ -128,7 +128,7 @@ theorem joint_leaf_right (ω : Oracle A Q) (l : Leaf) (t : Tree A Q Leaf) (h : L
     exact run_consistent ω t h
 
 theorem joint_run (ω : Oracle A Q) :
-    ∀ (tA tB : Tree A Q Leaf) (succs : List (PS A Q)) (h : List (Ev A Q)),
+    ∀ (tA : Tree A Q (Leaf S)) (tB : Tree A Q (Leaf T)) (succs : List (PS S T A Q)) (h : List (Ev A Q)),
       joint tA tB = some succs → ∃ p ∈ succs, JointPost ω h tA tB p := by
   intro tA
   induction tA with
@@ -208,13 +208,13 @@ theorem joint_run (ω : Oracle A Q) :
       · exact absurd hj (by simp)
 
 /-- Product state `p` describes the two concrete runs so far. -/
-def Rel (ω : Oracle A Q) (p : PS A Q) (hA hB : List (Ev A Q)) (cA cB : Option Nat) : Prop :=
+def Rel (ω : Oracle A Q) (p : PS S T A Q) (hA hB : List (Ev A Q)) (cA : Option S) (cB : Option T) : Prop :=
   p.a = cA ∧ p.b = cB ∧
   (if p.aLeads then hA = hB ++ p.lag ∧ Consistent ω hB p.lag
    else hB = hA ++ p.lag ∧ Consistent ω hA p.lag)
 
-theorem step_rel (ω : Oracle A Q) (M N : SM A Q) (p : PS A Q) (x : Nat)
-    (hA hB : List (Ev A Q)) (cA cB : Option Nat) (succs : List (PS A Q))
+theorem step_rel (ω : Oracle A Q) (M : SM S A Q) (N : SM T A Q) (p : PS S T A Q) (x : Nat)
+    (hA hB : List (Ev A Q)) (cA : Option S) (cB : Option T) (succs : List (PS S T A Q))
     (hr : Rel ω p hA hB cA cB) (hs : stepCheck M N p x = some succs) :
     ∃ p' ∈ succs,
       Rel ω p' (hA ++ ((M.tree cA x).run ω hA).1) (hB ++ ((N.tree cB x).run ω hB).1)
@@ -277,8 +277,8 @@ theorem step_rel (ω : Oracle A Q) (M N : SM A Q) (p : PS A Q) (x : Nat)
         simp only [← List.append_assoc]
         exact List.prefix_append _ _
 
-theorem certOK_step {M N : SM A Q} {nsym : Nat} {V : List (PS A Q)}
-    (hc : certOK M N nsym V = true) {p : PS A Q} (hp : p ∈ V) {x : Nat} (hx : x < nsym) :
+theorem certOK_step {M : SM S A Q} {N : SM T A Q} {nsym : Nat} {V : List (PS S T A Q)}
+    (hc : certOK M N nsym V = true) {p : PS S T A Q} (hp : p ∈ V) {x : Nat} (hx : x < nsym) :
     ∃ succs, stepCheck M N p x = some succs ∧ ∀ p' ∈ succs, p' ∈ V := by
   simp only [certOK, Bool.and_eq_true, List.all_eq_true, List.mem_range] at hc
   have h := hc.2 p hp x hx
@@ -290,16 +290,16 @@ theorem certOK_step {M N : SM A Q} {nsym : Nat} {V : List (PS A Q)}
     have := (List.all_eq_true.1 h) p' hp'
     simpa using this
 
-theorem certOK_init {M N : SM A Q} {nsym : Nat} {V : List (PS A Q)}
+theorem certOK_init {M : SM S A Q} {N : SM T A Q} {nsym : Nat} {V : List (PS S T A Q)}
     (hc : certOK M N nsym V = true) : initPS M N ∈ V := by
   simp only [certOK, Bool.and_eq_true] at hc
   simpa using hc.1
 
 /-- The invariant is preserved along any word: after `w` the two runs are described by some
     product state of the certificate. -/
-theorem cert_runs {M N : SM A Q} {nsym : Nat} {V : List (PS A Q)}
+theorem cert_runs {M : SM S A Q} {N : SM T A Q} {nsym : Nat} {V : List (PS S T A Q)}
     (hc : certOK M N nsym V = true) (ω : Oracle A Q) :
-    ∀ (w : List Nat) (p : PS A Q) (hA hB : List (Ev A Q)) (cA cB : Option Nat),
+    ∀ (w : List Nat) (p : PS S T A Q) (hA hB : List (Ev A Q)) (cA : Option S) (cB : Option T),
       p ∈ V → Rel ω p hA hB cA cB → (∀ x ∈ w, x < nsym) →
       ∃ p' ∈ V, Rel ω p' (hA ++ (M.runFrom ω hA cA w).1) (hB ++ (N.runFrom ω hB cB w).1)
         (M.runFrom ω hA cA w).2 (N.runFrom ω hB cB w).2 := by
@@ -317,8 +317,8 @@ theorem cert_runs {M N : SM A Q} {nsym : Nat} {V : List (PS A Q)}
     refine ⟨p'', hp'', ?_⟩
     simpa [SM.runFrom, List.append_assoc] using hr''
 
-theorem runFrom_append (M : SM A Q) (ω : Oracle A Q) :
-    ∀ (w v : List Nat) (h : List (Ev A Q)) (c : Option Nat),
+theorem runFrom_append (M : SM S A Q) (ω : Oracle A Q) :
+    ∀ (w v : List Nat) (h : List (Ev A Q)) (c : Option S),
       M.runFrom ω h c (w ++ v) =
         ((M.runFrom ω h c w).1 ++ (M.runFrom ω (h ++ (M.runFrom ω h c w).1) (M.runFrom ω h c w).2 v).1,
          (M.runFrom ω (h ++ (M.runFrom ω h c w).1) (M.runFrom ω h c w).2 v).2) := by
@@ -333,11 +333,11 @@ theorem runFrom_append (M : SM A Q) (ω : Oracle A Q) :
 
 def Comparable {α : Type} (l1 l2 : List α) : Prop := l1 <+: l2 ∨ l2 <+: l1
 
-theorem rel_init (ω : Oracle A Q) (M N : SM A Q) :
+theorem rel_init (ω : Oracle A Q) (M : SM S A Q) (N : SM T A Q) :
     Rel ω (initPS M N) [] [] (some M.start) (some N.start) := by
   simp [Rel, initPS, Consistent]
 
-theorem sync_leaf_some {lag : List (Ev A Q)} {l : Leaf} {t : Tree A Q Leaf}
+theorem sync_leaf_some {lag : List (Ev A Q)} {l : L} {t : Tree A Q L}
     (h : sync lag (.leaf l) = some t) : lag = [] := by
   cases lag with
   | nil => rfl
@@ -346,7 +346,7 @@ theorem sync_leaf_some {lag : List (Ev A Q)} {l : Leaf} {t : Tree A Q Leaf}
 /-- **Soundness of the certificate.**  If `certOK M N nsym V` holds then for every oracle and every
     word over symbols below `nsym`, the event sequences of the two machines are prefix-comparable,
     and equal once both machines have halted. -/
-theorem certOK_sound {M N : SM A Q} {nsym : Nat} {V : List (PS A Q)}
+theorem certOK_sound {M : SM S A Q} {N : SM T A Q} {nsym : Nat} {V : List (PS S T A Q)}
     (hc : certOK M N nsym V = true) (hn : 0 < nsym) (ω : Oracle A Q) (w : List Nat)
     (hw : ∀ x ∈ w, x < nsym) :
     Comparable (M.events ω w) (N.events ω w) ∧
@@ -383,7 +383,7 @@ theorem certOK_sound {M N : SM A Q} {nsym : Nat} {V : List (PS A Q)}
 
 /-- The lag is never older than one input step: everything one machine has done after `w` the
     other has done after `w ++ [x]`, whatever `x` is. -/
-theorem certOK_lag_one {M N : SM A Q} {nsym : Nat} {V : List (PS A Q)}
+theorem certOK_lag_one {M : SM S A Q} {N : SM T A Q} {nsym : Nat} {V : List (PS S T A Q)}
     (hc : certOK M N nsym V = true) (ω : Oracle A Q) (w : List Nat) (x : Nat)
     (hw : ∀ y ∈ w, y < nsym) (hx : x < nsym) :
     M.events ω w <+: N.events ω (w ++ [x]) ∧ N.events ω w <+: M.events ω (w ++ [x]) := by
